@@ -15,6 +15,8 @@ let proto_of = function
   | "dkls23-softspoken" -> PDkls23Softspoken | "lindell22" -> PLindell22
   | "boldyreva" -> PBoldyreva | "lindell17-primary" -> PLindell17Primary
   | "lindell17-secondary" -> PLindell17Secondary
+  | "ot-sender" -> POtSender | "ot-receiver" -> POtReceiver
+  | "vole-alice" -> PVoleAlice | "vole-bob" -> PVoleBob
   | s -> failwith ("unknown protocol " ^ s)
 
 let site_name = function
